@@ -68,7 +68,7 @@ impl Prop for C07 {
 
     fn profiles(tier: Tier) -> Vec<Profile> {
         match tier {
-            Tier::Quick => vec![prof("const_single", 25_000), prof("const_batch", 25_000), prof("sampled", 15_000)],
+            Tier::Quick => vec![prof("const_single", 100_000), prof("const_batch", 100_000), prof("sampled", 60_000)],
             Tier::Thorough => vec![prof("const_single", 800_000), prof("const_batch", 800_000), prof("sampled", 500_000)],
         }
     }
